@@ -130,6 +130,32 @@ Proof.
       * intros H p Hp. apply H. now right.
 Qed.
 
+Lemma identical_parent_some h fc ps p :
+  identical_parent h fc ps = Some p -> In p ps /\ exists fp, file_of h p = Some fp /\ lines_eqb fp fc = true.
+Proof.
+  induction ps as [|q ps IH]; cbn; [discriminate|].
+  destruct (file_of h q) as [fq|] eqn:Hq.
+  - destruct (lines_eqb fq fc) eqn:He.
+    + intros H; inversion H; subst. split; [now left|]. eauto.
+    + intros H. destruct (IH H) as [Hi Hx]. auto.
+  - intros H. destruct (IH H) as [Hi Hx]. auto.
+Qed.
+
+Lemma taker_some h dt c fc i ps p j :
+  taker h dt c fc i ps = Some (p, j) -> In p ps /\ to_parent h dt c fc i p = Some j.
+Proof.
+  unfold taker. destruct (identical_parent h fc ps) as [q|] eqn:Hq.
+  - intros H; inversion H; subst. destruct (identical_parent_some _ _ _ _ Hq) as (Hi & fp & Hf & He).
+    split; [exact Hi|]. unfold to_parent. now rewrite Hf, He.
+  - apply first_taker_some.
+Qed.
+
+Lemma taker_none h dt c fc i ps :
+  taker h dt c fc i ps = None -> forall p, In p ps -> to_parent h dt c fc i p = None.
+Proof.
+  unfold taker. destruct (identical_parent h fc ps); [discriminate|]. apply first_taker_none.
+Qed.
+
 Lemma file_of_commit h c fc : file_of h c = Some fc -> exists k, get_commit h c = Some k /\ k.(c_file) = Some fc.
 Proof. unfold file_of. destruct (get_commit h c) as [k|]; [|discriminate]. intros H. now exists k. Qed.
 
@@ -142,8 +168,8 @@ Proof.
   intros Hd Ho. induction fuel as [|f IH]; intros c i fc Hc Hf Hi; [lia|].
   destruct (file_of_commit _ _ _ Hf) as (k & Hk & Hkf).
   cbn [blame_pos]. rewrite Hk, Hkf. apply Nat.ltb_lt in Hi as Hi'. rewrite Hi'.
-  destruct (first_taker h dt c fc i (c_parents k)) as [[p j]|] eqn:Hft.
-  - apply first_taker_some in Hft as [Hp Ht].
+  destruct (taker h dt c fc i (c_parents k)) as [[p j]|] eqn:Hft.
+  - apply taker_some in Hft as [Hp Ht].
     destruct (to_parent_sound _ _ _ _ _ _ _ _ Ho Hk Hkf Hp Hi Ht) as (fp & Hfp & Hj & _).
     pose proof (dag_ok_parent _ _ _ _ Hd Hk Hp). apply (IH p j fp); auto; lia.
   - eauto.
@@ -158,14 +184,14 @@ Lemma blame_pos_sound h dt :
   k <= c /\
   exists kc fk, get_commit h k = Some kc /\ kc.(c_file) = Some fk /\ j < length fk /\
     nth_error fk j = nth_error fc i /\
-    first_taker h dt k fk j kc.(c_parents) = None.
+    taker h dt k fk j kc.(c_parents) = None.
 Proof.
   intros Hd Ho. induction fuel as [|f IH]; intros c i fc k j Hf Hb; [discriminate|].
   destruct (file_of_commit _ _ _ Hf) as (kc & Hk & Hkf).
   cbn [blame_pos] in Hb. rewrite Hk, Hkf in Hb.
   destruct (Nat.ltb i (length fc)) eqn:Hi; [|discriminate]. apply Nat.ltb_lt in Hi.
-  destruct (first_taker h dt c fc i (c_parents kc)) as [[p j']|] eqn:Hft.
-  - apply first_taker_some in Hft as [Hp Ht].
+  destruct (taker h dt c fc i (c_parents kc)) as [[p j']|] eqn:Hft.
+  - apply taker_some in Hft as [Hp Ht].
     destruct (to_parent_sound _ _ _ _ _ _ _ _ Ho Hk Hkf Hp Hi Ht) as (fp & Hfp & Hj & Hn).
     pose proof (dag_ok_parent _ _ _ _ Hd Hk Hp).
     destruct (IH _ _ _ _ _ Hfp Hb) as (Hle & kc' & fk & H1 & H2 & H3 & H4 & H5).
